@@ -15,8 +15,8 @@ def _halved(e):
     return None
 
 
-def _implies_2t_lt_m(test, tname, mname):
-    """Does the comparison imply 2*t < m (t, m integers >= 0)?"""
+def _implies_2t_lt_m(test, tname, mname, aliases=()):
+    """Does the comparison imply 2*t < m (t, m integers >= 0)?  `aliases` are local names holding the threshold."""
     if not (isinstance(test, ast.Compare) and len(test.ops) == 1):
         return False
     l, r, op = test.left, test.comparators[0], test.ops[0]
@@ -38,7 +38,7 @@ def _implies_2t_lt_m(test, tname, mname):
             def visit_Name(self, n):
                 if n.id == mname:
                     return ast.Name(id='M', ctx=ast.Load())
-                if n.id == tname:
+                if n.id == tname or n.id in aliases:
                     return ast.Name(id='T', ctx=ast.Load())
                 return n
         import copy
@@ -81,6 +81,18 @@ def rule_CF1(ctx, rep):
     ctor = [c for c in calls_named(fn.node, 'Runtime')]
     if len(ctor) != 1:
         raise AnalysisError('CF1: Runtime(...) construction not found in setup()')
+    # local names that hold options.threshold (`t = options.threshold`), written back before the runtime is constructed
+    aliases = set()
+    for s in iter_nodes(fn.node):
+        if isinstance(s, ast.Assign) and len(s.targets) == 1 and isinstance(s.targets[0], ast.Name) and norm(s.value) == 'options.threshold':
+            aliases.add(s.targets[0].id)
+    stores = [s for s in iter_nodes(fn.node) if isinstance(s, ast.Assign) and norm(s.targets[0]) == 'options.threshold']
+    for a in sorted(aliases):
+        redefs = [st for st, v, how in definitions(fn.node, a) if not (v is not None and norm(v) == 'options.threshold')]
+        for st in redefs:
+            # a re-definition of the alias (the default) must be written back to options.threshold afterwards
+            if not any(norm(w.value) == a and astq.position(w) > astq.position(st) for w in stores):
+                aliases.discard(a)
     checks = []
     for s in fn.node.body:
         if astq.position(s) > astq.position(ctor[0]):
@@ -89,24 +101,31 @@ def rule_CF1(ctx, rep):
             checks.append((s, s.test))
         if isinstance(s, ast.If) and any(isinstance(x, ast.Raise) for x in s.body):
             checks.append((s, ast.UnaryOp(op=ast.Not(), operand=s.test)))
-    good = [s for s, t in checks if not isinstance(t, ast.UnaryOp) and _implies_2t_lt_m(t, 'threshold', 'm')]
-    if good:
+    good = [s for s, t in checks if not isinstance(t, ast.UnaryOp) and _implies_2t_lt_m(t, 'threshold', 'm', aliases)]
+    # nothing may change the threshold between the check and the construction
+    late = [w for w in stores if good and astq.position(w) > astq.position(good[0])]
+    if good and not late:
         rep.ok('CF1', fn, good[0], 'setup refuses every threshold with 2t >= m before the runtime exists')
+    elif good:
+        rep.bad('CF1', fn, late[0], 'options.threshold is assigned after the 2t < m check and before Runtime(...)')
     else:
-        cand = [s for s, t in checks if 'threshold' in norm(s)]
+        cand = [s for s, t in checks if 'threshold' in norm(s) or any(isinstance(x, ast.Name) and x.id in aliases for x in ast.walk(s))]
         rep.bad('CF1', fn, cand[0] if cand else ctor[0], 'no check before Runtime(...) implies 2*threshold < m: a threshold with 2t >= m is accepted '
                 '(multiplication needs 2t+1 <= m parties)')
-    # m is the number of parties actually configured
-    dflt = [s for s in iter_nodes(fn.node) if isinstance(s, ast.Assign) and norm(s.targets[0]) == 'options.threshold']
-    if dflt and norm(dflt[0].value) in ('(m - 1) // 2',):
-        rep.ok('CF1', fn, dflt[0], 'default threshold is the largest t with 2t < m')
-    elif dflt:
-        h = _halved(dflt[0].value)
-        lin = to_lin(h[0], opaque=False) if h else None
-        if h and h[1] and lin is not None and (Lin.sym('m') - 1 - lin).nonneg():
-            rep.ok('CF1', fn, dflt[0], 'default threshold satisfies 2t < m')
+    # m is the number of parties actually configured; the default threshold
+    dflt = [(s, s.value) for s in stores if not (isinstance(s.value, ast.Name) and s.value.id in aliases)]
+    for a in sorted(aliases):
+        dflt += [(st, v) for st, v, how in definitions(fn.node, a) if v is not None and norm(v) != 'options.threshold']
+    for st, v in dflt[:1]:
+        if norm(v) in ('(m - 1) // 2',):
+            rep.ok('CF1', fn, st, 'default threshold is the largest t with 2t < m')
         else:
-            rep.bad('CF1', fn, dflt[0], f'default threshold {norm(dflt[0].value)} need not satisfy 2t < m')
+            h = _halved(v)
+            lin = to_lin(h[0], opaque=False) if h else None
+            if h and h[1] and lin is not None and (Lin.sym('m') - 1 - lin).nonneg():
+                rep.ok('CF1', fn, st, 'default threshold satisfies 2t < m')
+            else:
+                rep.bad('CF1', fn, st, f'default threshold {norm(v)} need not satisfy 2t < m')
 
 
 # ---------------------------------------------------------------------------------- CF2
